@@ -19,6 +19,7 @@ import CqlVerif.Drv.Bytes
 import CqlVerif.Drv.Ring
 import CqlVerif.Drv.Hostile
 import CqlVerif.Drv.Race
+import CqlVerif.Drv.Tls
 open CqlVerif.Drv
 
 def dispatch (stream op real : String) : Verdict :=
@@ -44,6 +45,7 @@ def dispatch (stream op real : String) : Verdict :=
   | "ring" => RingStream.handle op real
   | "hostile" => HostileStream.handle op real
   | "race" => RaceStream.handle op real
+  | "tls" => TlsStream.handle op real
   | _ => { kind := "diff", detail := s!"unknown stream {stream}" }
 
 partial def loop (h : IO.FS.Stream) (out : IO.FS.Stream) : IO Unit := do
